@@ -97,6 +97,7 @@ type hdrSnap struct {
 	st       *State
 	vars     map[string]Val
 	pre      *State
+	prevars  map[string]Val // names as bound when the loop was entered (phis = incoming values)
 	keys     map[string]*writeShape
 	anything bool
 }
